@@ -303,8 +303,12 @@ func Gen(g *common.Gen, p Profile) {
 			g.Op("fib / %d %d", common.Pick(r, nonlocal), common.Pick(r, []int{1, 5, 10}))
 			g.Stat("default-route-nonlocal")
 		}
-		for k := r.Range(2, 6); k > 0; k-- {
-			g.Op("fib %s %d %d", common.NameText(s.fibPrefix()), s.face(), common.Pick(r, []int{0, 1, 1, 5, 5, 10}))
+		for k := r.Range(2, 4); k > 0; k-- {
+			// several next hops on one prefix: cost ties, multicast fan-out, fall-through past unusable hops
+			pfx := s.fibPrefix()
+			for j := r.Range(1, 3); j > 0; j-- {
+				g.Op("fib %s %d %d", common.NameText(pfx), s.face(), common.Pick(r, []int{0, 1, 1, 5, 5, 10}))
+			}
 		}
 		if r.Chance(1, 3) {
 			g.Op("strat %s multi", common.NameText(common.Pick(r, []enc.Name{{}, nm("a"), nm("b"), nm("localhost")})))
